@@ -15,7 +15,9 @@ EXPR_SCOPES = ['lambda', 'listcomp', 'genexpr', 'dictcomp', 'setcomp']
 BINDERS = ['assign', 'augassign', 'annassign', 'annonly', 'for', 'with', 'except', 'import', 'importas', 'fromimport', 'def', 'class', 'param', 'kwonly',
            'posonly', 'vararg', 'kwarg', 'walrus', 'match', 'matchstar', 'matchrest', 'del', 'global', 'nonlocal', 'tuple', 'starred', 'comptarget', 'default_self']
 REFPOS = ['expr', 'call', 'default', 'decorator', 'annotation', 'base', 'classkw', 'fstring', 'compiter', 'compcond', 'compelt', 'lambdabody', 'walrusvalue',
-          'return', 'attrbase', 'subscript', 'store', 'augstore', 'delete', 'closure_call', 'yield', 'kwvalue', 'compiter2', 'nested_fstring', 'conditional', 'global_read']
+          'return', 'attrbase', 'subscript', 'store', 'augstore', 'delete', 'closure_call', 'yield', 'kwvalue', 'compiter2', 'nested_fstring', 'conditional', 'global_read',
+          'kwdefault', 'vararg_annotation', 'kwarg_annotation', 'kwonly_annotation', 'posonly_default', 'lambda_default', 'lambda_kwdefault', 'class_decorator',
+          'return_annotation', 'kwdefault_shadowed', 'default_shadowed']
 SUBJECTS = ['subject', 'A', '_A', 'len', 'x', 'B', 'value']
 
 
@@ -76,6 +78,28 @@ def ref_expr(pos, name):
         return ['print(str(%s))' % name]
     if pos == 'default':
         return ['def d_(p=%s):\n    return p\nprint(d_())' % name]
+    if pos == 'kwdefault':
+        return ['def kd_(*, p=%s):\n    return p\nprint(kd_())' % name]
+    if pos == 'kwdefault_shadowed':
+        return ['def kds_(*, %s=%s):\n    inner_ = %s\n    return inner_\nprint(kds_())' % (name, name, name)]
+    if pos == 'default_shadowed':
+        return ['def ds_(%s=%s):\n    %s = [%s]\n    return %s\nprint(ds_())' % (name, name, name, name, name)]
+    if pos == 'posonly_default':
+        return ['def pd_(p=%s, /, q=0):\n    return p\nprint(pd_())' % name]
+    if pos == 'vararg_annotation':
+        return ['def va_(*rest: %s):\n    return rest\nprint(va_())' % name]
+    if pos == 'kwarg_annotation':
+        return ['def ka_(**rest: %s):\n    return rest\nprint(ka_())' % name]
+    if pos == 'kwonly_annotation':
+        return ['def koa_(*, k: %s = 0):\n    return k\nprint(koa_())' % name]
+    if pos == 'return_annotation':
+        return ['def ra_() -> %s:\n    return 1\nprint(ra_())' % name]
+    if pos == 'lambda_default':
+        return ['print((lambda p=%s: p)())' % name]
+    if pos == 'lambda_kwdefault':
+        return ['print((lambda *, p=%s: p)())' % name]
+    if pos == 'class_decorator':
+        return ['def cdeco_(v):\n    return lambda c: c\n@cdeco_(%s)\nclass Decorated_:\n    pass' % name]
     if pos == 'decorator':
         return ['def deco_(v):\n    return lambda f: v\n@deco_(%s)\ndef decorated_():\n    pass\nprint(decorated_)' % name]
     if pos == 'annotation':
